@@ -323,8 +323,11 @@ def gen_around(rng, info, doc, f, t):
         w = rng.choice(types)
         from .gen import gen_attrs as ga
         wn = Node(w, ga(rng, w), Fragment.empty, [])
-        if rng.random() < 0.3:
-            w2 = rng.choice(types)
+        outer_ok = [t_ for t_ in types
+                    if (lambda m: m is not None and m.valid_end)(t_.content_match.match_type(w))]
+        if outer_ok and rng.random() < 0.3:
+            # the payload itself must be schema-valid: the outer wrapper may hold the inner one as only child
+            w2 = rng.choice(outer_ok)
             wn = Node(w2, ga(rng, w2), Fragment.from_(wn), [])
             return ReplaceAroundStep(s, e, s, e, Slice(Fragment.from_(wn), 0, 0), 2, rng.random() < 0.8)
         return ReplaceAroundStep(s, e, s, e, Slice(Fragment.from_(wn), 0, 0), 1, rng.random() < 0.8)
